@@ -18,7 +18,8 @@ fn main() {
     let replay = args.get("replay-case").and_then(|s| s.parse().ok());
     install_quiet_panic_hook();
     let mut rep = Report::new(&suite);
-    let pools = Pools::new();
+    let lazy_pools = std::cell::OnceCell::new();
+    let pools_fn = || lazy_pools.get_or_init(Pools::new);
     match suite.as_str() {
         "match" => {
             let props = m_match::Props::parse(&args.str("props", "C01,C02,C03,C05,C10"));
@@ -33,18 +34,29 @@ fn main() {
             if props.c10 {
                 vmon::m_total::install_slab_monitor();
             }
-            m_match::run(&opts, &props, &pools, &mut rep);
+            m_match::run(&opts, &props, pools_fn(), &mut rep);
             if props.c10 {
                 vmon::m_total::collect_slab_monitor(&mut rep);
             }
         }
         "quality" => {
             let opts = vmon::m_quality::Opts { seed, shard, cases, time_limit, replay };
-            vmon::m_quality::run(&opts, &pools, &mut rep);
+            vmon::m_quality::run(&opts, pools_fn(), &mut rep);
         }
         "total" => {
             let opts = vmon::m_total::Opts { seed, shard, cases, time_limit, replay };
-            vmon::m_total::run(&opts, &pools, &mut rep);
+            vmon::m_total::run(&opts, pools_fn(), &mut rep);
+        }
+        "grid" => {
+            let opts = vmon::m_grid::Opts {
+                seed,
+                shard,
+                shards: args.u64("shards", 1),
+                cases,
+                time_limit,
+                max_cells: args.u64("max-cells", 10_000_000) as usize,
+            };
+            vmon::m_grid::run(&opts, &mut rep);
         }
         "grammar" => {
             let opts = vmon::m_grammar::Opts { seed, shard, cases, time_limit, replay };
